@@ -187,22 +187,22 @@ theorem widths_index (T : Tables) (fd : FontDict) (code : Int) :
     · have : ¬ 0 ≤ code - fd.firstChar.getD 0 := by omega
       simp [h, this]
 
-/-- **Width precedence**: the advance is the Widths/FirstChar entry, else the standard-14 metric of the
-character, else MissingWidth; times 1/1000, or times the Type3 FontMatrix scale - for every code. -/
-theorem C06_width_precedence (T : Tables) (hT : TablesOK T) (fd : FontDict) (code : Int)
-    (hj : judgedCode T fd code = true) :
-    glyphAdv (modelFont T fd) code = specWidth T fd code := by
-  unfold glyphAdv charWidth specWidth
-  rw [widths_index, build_hscale, build_defaultWidth, C06_unicode_precedence T hT fd code hj]
+/-- The advance of EVERY code (no hypothesis) is the specified function of the code's Unicode value as the font
+reports it: Widths entry, else standard-14 metric of that character, else MissingWidth; times the scale. -/
+theorem width_of_unicode (T : Tables) (fd : FontDict) (code : Int) :
+    glyphAdv (modelFont T fd) code = specWidthOf T fd code (toUnichr (modelFont T fd) code) := by
+  unfold glyphAdv charWidth specWidthOf
+  rw [widths_index, build_hscale, build_defaultWidth]
   cases hw : widthsEntry fd code with
   | some w => rfl
   | none =>
     simp only
-    unfold strWidth std14Metric
+    unfold strWidth std14MetricOf
     rw [build_widthsStr]
+    generalize toUnichr (modelFont T fd) code = u
     cases h3 : fd.isType3
     · simp only [Bool.false_eq_true, if_false]
-      cases hu : specUnicode T fd code with
+      cases u with
       | none => cases getMetrics T.fm (fd.baseFont.getD "unknown") <;> simp
       | some t =>
         cases hm : getMetrics T.fm (fd.baseFont.getD "unknown") with
@@ -220,12 +220,20 @@ theorem C06_width_precedence (T : Tables) (hT : TablesOK T) (fd : FontDict) (cod
             | nil => cases hs : slookup m c <;> simp [hs]
             | cons _ _ => simp
     · simp only [if_true]
-      cases hu : specUnicode T fd code with
+      cases u with
       | none => simp
       | some t =>
         cases t with
         | nil => simp
         | cons c r => cases r <;> simp [slookup]
+
+/-- **Width precedence**: the advance is the Widths/FirstChar entry, else the standard-14 metric of the
+character, else MissingWidth; times 1/1000, or times the Type3 FontMatrix scale - for every code. -/
+theorem C06_width_precedence (T : Tables) (hT : TablesOK T) (fd : FontDict) (code : Int)
+    (hj : judgedCode T fd code = true) :
+    glyphAdv (modelFont T fd) code = specWidth T fd code := by
+  rw [width_of_unicode, C06_unicode_precedence T hT fd code hj]
+  rfl
 
 /-- **Type3 scale**: the advance of a Type3 glyph is its Widths entry (else MissingWidth) times
 `FontMatrix[0]` (and does not depend on the text of the code). -/
@@ -251,6 +259,78 @@ theorem type3_scale (T : Tables) (fd : FontDict) (code : Int) (h3 : fd.isType3 =
       cases t with
       | nil => rfl
       | cons c r => cases r <;> simp [slookup]
+
+/-! ## ToUnicode for every map: the space / no-break-space rule, exactly -/
+
+/-- **Exact ToUnicode rule** (every map, no exclusion): the value the constructed map holds for a code is the
+most recent definition of the code, except that a definition as U+00A0 does not replace U+0020. -/
+theorem tounicode_exact (es : List TuEntry) (code : Int) :
+    tlookup (buildUmap es) code = tuTextExact (tuDefs es) code :=
+  tlookup_buildUmap_exact es code
+
+/-- Without a space / no-break-space pair the exact rule is "the last definition wins". -/
+theorem tounicode_exact_noclash (es : List TuEntry) (code : Int) (h : nbspClash (tuDefs es) = false) :
+    tuTextExact (tuDefs es) code = tuText (tuDefs es) code := by
+  rw [← tounicode_exact, tlookup_buildUmap es code h]
+
+/-- "The last definition wins" is FALSE for pdfminer in general (documented deviation): `<41> <0020>` followed by
+`<41> <00A0>` keeps the space. -/
+theorem tounicode_last_wins_cex :
+    tlookup (buildUmap [.bfchar [0x41] [0x00, 0x20], .bfchar [0x41] [0x00, 0xA0]]) 0x41 = some [0x20] ∧
+    tuText (tuDefs [.bfchar [0x41] [0x00, 0x20], .bfchar [0x41] [0x00, 0xA0]]) 0x41 = some [0xA0] ∧
+    nbspClash (tuDefs [.bfchar [0x41] [0x00, 0x20], .bfchar [0x41] [0x00, 0xA0]]) = true := by decide +kernel
+
+/-- **Text precedence, Unicode level, for every ToUnicode map** (the exclusion of space / no-break-space maps
+of `C06_unicode_precedence` is gone; only the glyph name has to be judged). -/
+theorem C06_unicode_precedence_exact (T : Tables) (hT : TablesOK T) (fd : FontDict) (code : Int)
+    (hj : judgedCodeX T fd code = true) :
+    toUnichr (modelFont T fd) code = specUnicodeX T fd code := by
+  unfold toUnichr specUnicodeX
+  unfold judgedCodeX at hj
+  rw [build_umap]
+  cases htu : fd.toUnicode with
+  | none =>
+    simp only [htu] at hj
+    simp only [Option.map_none]
+    exact encoding_text T hT fd code hj
+  | some es =>
+    simp only [htu] at hj
+    simp only [Option.map_some]
+    rw [tounicode_exact es code]
+    cases ht : tuTextExact (tuDefs es) code with
+    | some t => rfl
+    | none =>
+      simp only [ht] at hj
+      exact encoding_text T hT fd code hj
+
+theorem C06_text_precedence_exact (T : Tables) (hT : TablesOK T) (fd : FontDict) (code : Int)
+    (hj : judgedCodeX T fd code = true) :
+    glyphText (modelFont T fd) code = specTextX T fd code := by
+  unfold glyphText specTextX
+  simp only [C06_unicode_precedence_exact T hT fd code hj]
+  cases specUnicodeX T fd code <;> rfl
+
+theorem C06_width_precedence_exact (T : Tables) (hT : TablesOK T) (fd : FontDict) (code : Int)
+    (hj : judgedCodeX T fd code = true) :
+    glyphAdv (modelFont T fd) code = specWidthX T fd code := by
+  rw [width_of_unicode, C06_unicode_precedence_exact T hT fd code hj]
+  rfl
+
+/-- The old judged domain lies inside the new one, and there the two specifications agree. -/
+theorem judgedCode_exact (T : Tables) (fd : FontDict) (code : Int) (hj : judgedCode T fd code = true) :
+    judgedCodeX T fd code = true ∧ specUnicodeX T fd code = specUnicode T fd code := by
+  unfold judgedCode at hj
+  unfold judgedCodeX specUnicodeX specUnicode
+  cases htu : fd.toUnicode with
+  | none => simp only [htu] at hj; exact ⟨hj, rfl⟩
+  | some es =>
+    simp only [htu] at hj
+    cases hc : nbspClash (tuDefs es) with
+    | true => simp [hc] at hj
+    | false =>
+      simp only [hc, Bool.false_eq_true, if_false] at hj
+      simp only [tounicode_exact_noclash es code hc]
+      exact ⟨hj, trivial⟩
 
 /-! ## The regenerated tables of pdfminer -/
 
@@ -587,6 +667,20 @@ example : specWidth T0 fd0 66 = 500 / 1000 := by decide +kernel         -- Width
 example : specWidth T0 fd0 32 = 250 / 1000 := by decide +kernel         -- text is "X": no metric -> MissingWidth
 example : glyphText (modelFont T0 fd0) 66 = [65, 66] := by
   rw [C06_text_precedence T0 example_tables_ok fd0 66 (by decide +kernel)]; decide +kernel
+
+-- the exact ToUnicode rule on a font whose map has the space / no-break-space pair (outside the old judged domain)
+def fdNb : FontDict :=
+  { fd0 with toUnicode := some [.bfchar [0x41] [0x00, 0x20], .bfchar [0x41] [0x00, 0xA0],
+                                 .bfchar [0x42] [0x00, 0xA0], .bfchar [0x42] [0x00, 0x20], .bfchar [0x42] [0x00, 0xA0],
+                                 .bfchar [0x43] [0x00, 0x20], .bfchar [0x43] [0x00, 0x58], .bfchar [0x43] [0x00, 0xA0]] }
+example : judgedCode T0 fdNb 0x41 = false := by decide +kernel
+example : ∀ c ∈ [(0x41 : Int), 0x42, 0x43, 0x20], judgedCodeX T0 fdNb c = true := by decide +kernel
+example : specTextX T0 fdNb 0x41 = [0x20] := by decide +kernel      -- space, then no-break space: the space stays
+example : specTextX T0 fdNb 0x42 = [0x20] := by decide +kernel      -- nbsp, space, nbsp: space
+example : specTextX T0 fdNb 0x43 = [0xA0] := by decide +kernel      -- space, X, nbsp: nbsp (X was in effect)
+example : specWidthX T0 fdNb 0x41 = 278 / 1000 := by decide +kernel -- Helvetica's metric of the space
+example : glyphText (modelFont T0 fdNb) 0x41 = [0x20] := by
+  rw [C06_text_precedence_exact T0 example_tables_ok fdNb 0x41 (by decide +kernel)]; decide +kernel
 
 -- the instances for pdfminer's own tables are not vacuous either (the first glyph-list entry keeps the kernel
 -- lookup short; names deeper in the 4 281-entry list cost minutes of String -> List Char conversion)
